@@ -4,6 +4,7 @@ use crate::prng::Prng;
 use crate::report::Report;
 
 pub mod c03;
+pub mod c05;
 pub mod c07;
 pub mod common;
 
@@ -33,6 +34,7 @@ pub trait Monitor {
 pub fn make(prop: &str) -> Option<Box<dyn Monitor>> {
     match prop {
         "C03" => Some(Box::new(c03::C03::new())),
+        "C05" => Some(Box::new(c05::C05::new())),
         "C07" => Some(Box::new(c07::C07::new())),
         _ => None,
     }
